@@ -152,6 +152,14 @@ def gen(rng, nrng, tier):
         xx = nrng.standard_normal(40) + 1j * nrng.standard_normal(40) + 2 * np.exp(2j * np.pi * 0.11 * np.arange(40))
         yield ("shift", {"cls": cls, "x": xx, "nfft": nfft, "m": int(nrng.integers(1, nfft)), "cfg": cfg})
         yield ("real", {"cls": cls, "x": nrng.standard_normal(40) + np.cos(0.9 * np.arange(40)), "nfft": nfft, "cfg": cfg})
+    # ARMA with P < Q, P > Q and P = Q (the lag sequence handed to the solver is built differently in the three cases)
+    for i, (P_, Q_, lag_) in enumerate([(2, 4, 10), (1, 3, 8), (3, 1, 8), (2, 2, 8), (2, 3, 9), (1, 2, 6)]):
+        if tier == "quick" and i >= 4:
+            break
+        xx = nrng.standard_normal(48) + 1j * nrng.standard_normal(48) + 2 * np.exp(2j * np.pi * 0.11 * np.arange(48))
+        cfg = {"order": P_, "Q": Q_, "lag": lag_}
+        yield ("shift", {"cls": "parma", "x": xx, "nfft": [64, 65][i % 2], "m": int(nrng.integers(1, 60)), "cfg": cfg})
+        yield ("real", {"cls": "parma", "x": nrng.standard_normal(48) + np.cos(0.9 * np.arange(48)), "nfft": [64, 65][i % 2], "cfg": cfg})
     # every window name through the Fourier classes (the window is part of the estimator's configuration)
     from spectrum.window import window_names
     wn = sorted(window_names)
